@@ -57,17 +57,25 @@ def handle (op : String) (args : List String) : Option String :=
       | "set" => some Handler.set | "rollback" => some Handler.rollback | _ => none
     let sync := if (← argOf args "sync") == "1" then TxSync.synchronous else TxSync.asynchronous
     let j ← (← argOf args "j").toNat?
-    let path ← ((← argOf args "path").splitOn ",").mapM decStatus
+    let pathArg ← argOf args "path"
+    let path ← if pathArg.isEmpty then some [] else (pathArg.splitOn ",").mapM decStatus
     let c ← decChange (← argOf args "change")
     let idx ← (← argOf args "idx").toNat?
-    -- the harness holds the later writes back until the replayed event has been handed to the handler: k = j
-    let r := answer h sync ({ state := .pending } :: path) j j c idx
-    match r.outcome with
-    | .ok =>
-      let rs := (r.results.map fun (t, p, d) => encStr t ++ "|" ++ encStr p ++ "|" ++ (if d then "D" else "U")).foldr insertSorted []
-      pure ("ok idx=" ++ toString r.index ++ " results=" ++ ",".intercalate rs)
-    | .err k => pure ("err " ++ encKind k)
-    | .ctxDone => pure "ctx"
+    -- the harness holds the later writes back until the replayed event has been handed to the handler (replay read
+    -- after exactly j writes); how far the store's dispatcher had got when the listener registered (k ≤ j) is
+    -- not under its control: the answer is the set over k
+    let render := fun (k : Nat) =>
+      let r := answer h sync ({ state := .pending } :: path) k j c idx
+      match r.outcome with
+      | .ok =>
+        let rs := (r.results.map fun (t, p, d) => encStr t ++ "|" ++ encStr p ++ "|" ++ (if d then "D" else "U")).foldr insertSorted []
+        "ok idx=" ++ toString r.index ++ " results=" ++ ",".intercalate rs
+      | .err k => "err " ++ encKind k
+      | .ctxDone => "ctx"
+    let answers := ((List.range (j + 1)).map render).eraseDups.foldr insertSorted []
+    match answers with
+    | [a] => pure a
+    | _ => pure ("oneof " ++ " || ".intercalate answers)
   | _ => none
 
 def handleIO (op : String) (args : List String) : IO (Option String) := pure (handle op args)
